@@ -351,7 +351,10 @@ static std::string runCase(const std::string &cfgs, const std::vector<std::strin
     if (which == 0) rawSend(bfd, lport[0], "b");
     else rawSend(bfd2, bl2port, "b");
     std::unique_lock<std::mutex> lk(C.m);
-    if (!C.cv.wait_for(lk, std::chrono::seconds(5), [&] { return C.barrierCount >= want; })) timedOut = true;
+    // after a few barrier time-outs the verdict is clear: do not spend 5 s on every remaining case
+    static std::atomic<int> g_timeouts{0};
+    const auto patience = g_timeouts.load() >= 3 ? std::chrono::milliseconds(300) : std::chrono::milliseconds(5000);
+    if (!C.cv.wait_for(lk, patience, [&] { return C.barrierCount >= want; })) { timedOut = true; g_timeouts++; }
   };
   auto barrierOnce = [&]() { barrierOn(0); };
   auto settle = [&]() { barrierOn(0); barrierOn(1); };
